@@ -34,11 +34,15 @@ pub fn pow(&self, exp: usize) -> IBig
             }
         } @*/
         let result = if shift != 0 {
+            let total_shift = match exp.checked_mul(shift) {
+                Some(n) => n,
+                None => panic_allocate_too_much(),
+            };
             mag.shr(shift)
                 .as_typed()
                 .pow(exp)
                 .into_typed()
-                .shl(exp * shift)
+                .shl(total_shift)
         } else {
             mag.pow(exp)
         };
